@@ -491,14 +491,31 @@ pub fn gen_pd_desc(rng: &mut Rng, o: &PdOpts) -> DeviceDesc {
             d.pdos.push(PdoDesc { index: base + k as u16, sm: sm as u8, tx: dir == 4, entries: (0..ne).map(|e| PdoEntryDesc { index: 0x6000 + k as u16, sub: e as u8 + 1, bits: rng.edgy(1, 64) as u8 }).collect() });
         }
     }
-    // physical placement of the process data buffers
-    for i in 0..d.sms.len() {
-        if d.sms[i].usage >= 3 {
-            let len = d.sm_pd_bytes(i as u8);
-            d.sms[i].start = ram;
-            d.sms[i].len = len;
-            ram += if o.contiguous { len } else { len + 3 * 16 + rng.below(64) as u16 };
+    // optional PDOs that are not assigned to any sync manager (SM field 0xff, as in real ESI/SII
+    // files) or that name a sync manager of the other kind / one that does not exist: they must not
+    // count towards any process data length
+    if o.max_pdos > 0 && rng.chance(1, 3) {
+        for k in 0..1 + rng.usize_below(2) {
+            let tx = rng.bool();
+            let base = if tx { 0x1a80 } else { 0x1680 };
+            let foreign: Vec<u8> = (0..d.sms.len() as u8).filter(|i| d.sms[*i as usize].usage < 3).chain([0xffu8, 0xff, d.sms.len() as u8 + rng.below(4) as u8]).collect();
+            let sm = *rng.pick(&foreign);
+            d.pdos.push(PdoDesc { index: base + k as u16, sm, tx, entries: (0..1 + rng.usize_below(3)).map(|e| PdoEntryDesc { index: 0x7000 + k as u16, sub: e as u8 + 1, bits: rng.edgy(1, 64) as u8 }).collect() });
         }
+    }
+    // physical placement of the process data buffers: in sync manager order and back to back
+    // (`contiguous`), or in any order with each buffer either directly behind the previously placed
+    // one or after a gap - so that e.g. SM4's buffer can start exactly where SM2's ends while SM3's
+    // lies somewhere else
+    let mut order: Vec<usize> = (0..d.sms.len()).filter(|i| d.sms[*i].usage >= 3).collect();
+    if !o.contiguous && rng.bool() {
+        rng.shuffle(&mut order);
+    }
+    for i in order {
+        let len = d.sm_pd_bytes(i as u8);
+        d.sms[i].start = ram;
+        d.sms[i].len = len;
+        ram += if o.contiguous || rng.chance(1, 3) { len } else { len + 3 * 16 + rng.below(64) as u16 };
     }
     // one FMMU per process data sync manager (a device needing two non-contiguous buffers in one
     // direction has two FMMUs for it), in either order, optionally a mailbox-state FMMU
@@ -516,6 +533,28 @@ pub fn gen_pd_desc(rng: &mut Rng, o: &PdOpts) -> DeviceDesc {
         d.fmmu_ex = (0..d.sms.len() as u8).collect();
     }
     d.eeprom_bytes = build_sii(&d).len().next_power_of_two().max(2048);
+    d
+}
+
+/// Does some direction have three or more non-empty process-data sync managers of which a later one
+/// (in index order) starts exactly where an earlier, non-neighbouring one ends?
+pub fn sm_adjacent_to_non_neighbour(d: &DeviceDesc) -> bool {
+    [3u8, 4].iter().any(|u| {
+        let same: Vec<&SmDesc> = d.sms.iter().enumerate().filter(|(i, s)| s.usage == *u && d.sm_pd_bytes(*i as u8) > 0).map(|(_, s)| s).collect();
+        same.len() >= 3 && (0..same.len()).any(|a| (a + 2..same.len()).any(|c| same[a].start + same[a].len == same[c].start))
+    })
+}
+
+/// Rejection-sampled device of the family above (falls back to whatever the last try gave).
+pub fn gen_pd_desc_three_sm(rng: &mut Rng, coe: bool, fmmu_ex: bool) -> DeviceDesc {
+    let o = PdOpts { coe, max_pdos: 8, max_sms_per_dir: 3, contiguous: false, fmmu_ex };
+    let mut d = gen_pd_desc(rng, &o);
+    for _ in 0..200 {
+        if sm_adjacent_to_non_neighbour(&d) {
+            break;
+        }
+        d = gen_pd_desc(rng, &o);
+    }
     d
 }
 
